@@ -236,6 +236,7 @@ pub fn run(args: &Args, rep: &mut Report) {
         scfg.nhandles = 1;
         // creating one entry must not need more than a generous multiple of a directory scan
         scfg.budget = Some(3_000_000);
+        scfg.short_dev = if rng.chance(1, 4) { Some(rng.next_u64()) } else { None };
         let mut src = ListSource { ops, i: 0 };
         let class = fnv_of(&[&fam, &vc.class()]);
         let o = run_session(&scfg, &img, vb, class, &mut src);
